@@ -75,16 +75,16 @@ RULE = ("proxy: every op sequence up to the tier's length over {write a / b\\n /
         "then seeded random schedules (1-4 threads, up to 60 ops, data with several newlines, ESC, wide chars, raw on/off, "
         "default and create_app_session sessions, close()), half of them adversarial (arbitrary interleaving of stop / "
         "loop close / start) and half calm; chain: every op sequence up to the tier's length over {enter sync, enter open, "
-        "leave 0..2, stop, start} + random; soak: free-running writer threads on an unmodified StdoutProxy (no "
+        "leave 0..2, stop, start, invalidate} + random; soak: free-running writer threads on an unmodified StdoutProxy (no "
         "application / application throughout / application stopped and restarted on a new loop meanwhile). "
         "non-trivial = a proxy case with a non-empty write and at least one flush-thread step, a chain case with a "
         "section, any soak case")
 EXHAUSTIVE = True
 EXHAUSTIVE_SCOPE = {
-    "quick": "proxy without app: all sequences len<=3 over 6 ops; with app: 5 prefixes x all sequences len<=2 over 7 ops; "
-             "chain: all sequences len<=3 over 7 ops",
-    "thorough": "proxy without app: all sequences len<=5 over 6 ops; with app: 5 prefixes x all sequences len<=4 over 7 ops; "
-                "chain: all sequences len<=5 over 7 ops",
+    "quick": "proxy without app: all sequences len<=4 over 6 ops; with app: 5 prefixes x all sequences len<=3 over 8 ops; "
+             "chain: all sequences len<=3 over 8 ops",
+    "thorough": "proxy without app: all sequences len<=5 over 6 ops; with app: 5 prefixes x all sequences len<=4 over 8 ops; "
+                "chain: all sequences len<=4 over 8 ops",
 }
 TRUSTED = ["harness/c20.py compares, after every scheduled step, the terminal events (erase / render / render-done / "
            "enable_autowrap+write+flush) received by a recording Vt100_Output and Renderer, _buffer, the queue items, the "
@@ -537,6 +537,24 @@ class Rig:
 
         lt.call(go())
 
+    def invalidate(self):
+        """Application.invalidate() and the redraw it schedules"""
+        app = self.app
+        if app is None or not app._is_running or self.session.app is not app:
+            return
+        lt = self.cur_loop()
+
+        async def go():
+            app.invalidate()
+
+        lt.call(go())
+        t0 = time.time()
+        while app._invalidated:
+            if time.time() - t0 > TIMEOUT:
+                raise RigTimeout("redraw after invalidate did not happen")
+            time.sleep(0.0005)
+        lt.barrier(3)
+
     def run_pending(self):
         if not self.pending:
             return
@@ -704,6 +722,8 @@ def apply_proxy_op(rig, op):
         rig.close_loop()
     elif k == "settle":
         rig.settle()
+    elif k == "inval":
+        rig.invalidate()
     else:
         raise ValueError(op)
 
@@ -711,7 +731,7 @@ def apply_proxy_op(rig, op):
 def filter_lifecycle(op, evs):
     # the application's own start-up / shut-down writes (cursor shape, bracketed paste ...) are not
     # emissions of the proxy: keep only the renderer operations of a start / stop step
-    if op[0] in ("start", "stop", "cstart", "cstop"):
+    if op[0] in ("start", "stop", "cstart", "cstop", "inval", "cinval"):
         return [e for e in evs if e[0] in ("E", "D", "X", "B", "b")]
     return evs
 
@@ -850,12 +870,13 @@ def check_bracket(timeline, notes=()):
 
 
 def classify_stream(out_text, expected, rec):
+    """condition class of a stream violation, from what the rig saw happen on the real objects"""
     if rec.get("fl_exc"):
         return SIG_DIED, "flush thread died with %s" % rec["fl_exc"]
     notes = rec.get("notes", [])
-    if "closed-with-pending" in notes and sorted(out_text) != sorted(expected):
+    if "closed-with-pending" in notes:
         return SIG_K1, "a loop was closed while it held accepted callbacks"
-    if "direct-with-pending" in notes and sorted(out_text) == sorted(expected):
+    if "direct-with-pending" in notes:
         return SIG_K2, "the flush thread wrote directly while accepted callbacks were waiting in the loop"
     if sorted(out_text) == sorted(expected):
         return SIG_STREAM + " | reordered", "same characters, different order"
@@ -1019,6 +1040,8 @@ def run_chain_case(case):
                 rig.cstop()
             elif k == "cstart":
                 rig.cstart()
+            elif k == "cinval":
+                rig.invalidate()
             else:
                 raise ValueError(op)
             evs = filter_lifecycle(op, rig.take_events())
@@ -1216,7 +1239,7 @@ APP_PREFIXES = [
 
 
 def exhaustive_app(maxlen):
-    alpha = [["w", 1, "y\n"], ["fl"], ["run"], ["start"], ["stop"], ["closeloop"], ["newloop"]]
+    alpha = [["w", 1, "y\n"], ["fl"], ["run"], ["start"], ["stop"], ["closeloop"], ["newloop"], ["inval"]]
     for pre in APP_PREFIXES:
         for n in range(0, maxlen + 1):
             for seq in itertools.product(alpha, repeat=n):
@@ -1229,8 +1252,10 @@ def random_proxy(rng, nops):
     ops = []
     closed = False
     weights = rng.choice([
-        {"w": 6, "f": 1, "fl": 6, "run": 2, "start": 1, "stop": 1, "newloop": 1, "closeloop": 1, "settle": 1, "close": 0},
-        {"w": 4, "f": 1, "fl": 5, "run": 3, "start": 2, "stop": 2, "newloop": 2, "closeloop": 2, "settle": 0, "close": 0},
+        {"w": 6, "f": 1, "fl": 6, "run": 2, "start": 1, "stop": 1, "newloop": 1, "closeloop": 1, "settle": 1, "close": 0,
+         "inval": 1},
+        {"w": 4, "f": 1, "fl": 5, "run": 3, "start": 2, "stop": 2, "newloop": 2, "closeloop": 2, "settle": 0, "close": 0,
+         "inval": 1},
         {"w": 8, "f": 2, "fl": 8, "run": 0, "start": 0, "stop": 0, "newloop": 0, "closeloop": 0, "settle": 0, "close": 0},
         {"w": 5, "f": 1, "fl": 6, "run": 3, "start": 1, "stop": 1, "newloop": 1, "closeloop": 0, "settle": 1, "close": 1},
     ])
@@ -1268,8 +1293,10 @@ def random_calm_proxy(rng, nops):
             ops.append(["f", rng.randrange(nthreads)])
         elif r < 0.85:
             ops.append(["fl"])
-        elif r < 0.93:
+        elif r < 0.91:
             ops.append(["run"])
+        elif r < 0.94:
+            ops.append(["inval"])
         else:
             ops.append(["settle"])
             ops.append(rng.choice([["stop"], ["start"], ["newloop"], ["closeloop"]]))
@@ -1278,7 +1305,7 @@ def random_calm_proxy(rng, nops):
 
 
 def exhaustive_chain(maxlen):
-    alpha = [["center", 1], ["center", 0], ["cstep", 0], ["cstep", 1], ["cstep", 2], ["cstop"], ["cstart"]]
+    alpha = [["center", 1], ["center", 0], ["cstep", 0], ["cstep", 1], ["cstep", 2], ["cstop"], ["cstart"], ["cinval"]]
     for n in range(0, maxlen + 1):
         for seq in itertools.product(alpha, repeat=n):
             yield {"kind": "chain", "session": "default", "ops": [["cstart"]] + [list(o) for o in seq]}
@@ -1294,8 +1321,10 @@ def random_chain(rng, nops):
             n += 1
         elif r < 0.8:
             ops.append(["cstep", rng.randrange(max(1, n))])
-        elif r < 0.9:
+        elif r < 0.87:
             ops.append(["cstop"])
+        elif r < 0.93:
+            ops.append(["cinval"])
         else:
             ops.append(["cstart"])
     return {"kind": "chain", "session": rng.choice(["default", "custom"]), "ops": ops}
@@ -1319,14 +1348,14 @@ def soak_case(rng, mode, via="proxy"):
 
 def cases(tier, rng):
     quick = tier == "quick"
-    yield from exhaustive_noapp(3 if quick else 5)
-    yield from exhaustive_app(2 if quick else 4)
-    yield from exhaustive_chain(3 if quick else 5)
-    for _ in range(150 if quick else 4000):
+    yield from exhaustive_noapp(4 if quick else 5)
+    yield from exhaustive_app(3 if quick else 4)
+    yield from exhaustive_chain(3 if quick else 4)
+    for _ in range(400 if quick else 4000):
         yield random_proxy(rng, rng.choice([5, 10, 20, 40]))
-    for _ in range(100 if quick else 3000):
+    for _ in range(300 if quick else 3000):
         yield random_calm_proxy(rng, rng.choice([10, 30, 60]))
-    for _ in range(60 if quick else 2000):
+    for _ in range(200 if quick else 4000):
         yield random_chain(rng, rng.choice([4, 8, 16]))
     if not quick:
         for i in range(240):
